@@ -308,3 +308,27 @@ func FragmentNameClash(r *core.Rng, s *Schema, d *Doc) bool {
 	}
 	return false
 }
+
+// ScalarHazard adds, for the first custom scalar of the schema, root fields that take it as an
+// argument at list depths 0, 1 and 2 and return it in a list, and an operation that passes
+// variables of those types and selects the result.  Returns the scalar's name and the operation.
+func ScalarHazard(r *core.Rng, s *Schema) (string, *Def) {
+	q := s.Get("Query")
+	if q == nil {
+		return "", nil
+	}
+	for _, t := range s.Types {
+		if t.Kind != "SCALAR" || s.Field("Query", "hzArg"+t.Name) != nil {
+			continue
+		}
+		n := t.Name
+		q.Fields = append(q.Fields,
+			&FieldDef{Name: "hzArg" + n, Type: Named("Boolean", false), Args: []*Arg{
+				{Name: "v", Type: ListOf(Named(n, true), false)}, {Name: "w", Type: Named(n, false)},
+				{Name: "deep", Type: ListOf(ListOf(Named(n, false), false), false)}}},
+			&FieldDef{Name: "hzOut" + n, Type: ListOf(Named(n, false), false)})
+		text := fmt.Sprintf("query HzScalar(\n  $v: [%s!],\n  $w: %s,\n  $deep: [[%s]],\n) {\n  hzArg%s(v: $v, w: $w, deep: $deep)\n  hzOut%s\n}\n", n, n, n, n, n)
+		return n, &Def{Kind: "query", Name: "HzScalar", Text: text}
+	}
+	return "", nil
+}
